@@ -152,6 +152,31 @@ func (p c07) Gen(r *simhook.Rand, tier string, idx int) harness.Scenario {
 		sc.Probes, sc.Probes2 = nil, nil
 		return sc
 	}
+	if r.Chance(1, 12) {
+		// class "named-seed-reset": the host list names its single seed node by host name (the cluster speaks in IP
+		// addresses); the proxy's connections to that node are reset; later one of its slots changes owner.  The
+		// redirection must still lead to a refresh round - over a new connection to the named seed.
+		sc.Class = "named-seed-reset"
+		sc.IdleFaults = false
+		sc.Env = world.RedisCfg{Masters: 2, NamedSeeds: true}
+		src := r.Intn(2)
+		sc.Env.SeedNodes = []int{src}
+		keys = keysForNodes(r, 2, "h", 3)
+		k := keys[src][r.Intn(len(keys[src]))]
+		slot := cluster.Slot([]byte(k))
+		sc.SlackMs = []int{0, 1, 1000}[r.Intn(3)]
+		sc.Conns = []ConnScript{{Name: "c0", Reqs: []world.Request{
+			{Args: world.Bins("GET", k), Wait: true},
+			{Args: world.Bins("GET", k), Wait: true},
+			{Args: world.Bins("GET", k), Wait: true, Gap: 60000},
+		}}}
+		sc.Faults = []Fault{
+			{Kind: "layout", From: slot, To: slot, Dst: 1 - src, AtMs: 90000},
+			{Kind: []string{"rst", "fin"}[r.Intn(2)], Node: src, AtMs: 5000 + r.Intn(60000)},
+		}
+		sc.Probes, sc.Probes2 = nil, nil
+		return sc
+	}
 	if r.Chance(1, 10) && m >= 2 {
 		// class "replica-move": reads may go to replicas; one replica is re-attached to another master (the masters
 		// keep their ids, addresses and slots). After the refresh rounds that the first redirection triggers, reads
@@ -233,7 +258,7 @@ func (p c07) Gen(r *simhook.Rand, tier string, idx int) harness.Scenario {
 func (p c07) Run(t *testing.T, s harness.Scenario) harness.Outcome {
 	sc := s.(*RedisScenario)
 	w := newRedisWorld(sc)
-	if sc.Class == "refresh-in-flight" || sc.Class == "open-migration" {
+	if sc.Class == "refresh-in-flight" || sc.Class == "open-migration" || sc.Class == "named-seed-reset" {
 		return p.runRefreshInFlight(t, sc, w)
 	}
 	w.fin = func(w *redisWorld) *simrtViolation {
@@ -318,14 +343,21 @@ func (p c07) Run(t *testing.T, s harness.Scenario) harness.Outcome {
 
 // runRefreshInFlight: see the class comment in Gen.
 func (p c07) runRefreshInFlight(t *testing.T, sc *RedisScenario, w *redisWorld) harness.Outcome {
-	key := string(sc.Conns[0].Reqs[0].Args[1])
+	o := 0 // index of the request that waits for the layout change
+	if sc.Class == "named-seed-reset" {
+		o = 1 // a warm-up request comes first
+	}
+	if len(sc.Conns) == 0 || len(sc.Conns[0].Reqs) < o+2 {
+		return runRedis(t, sc, w) // shrunk out of shape: only the common oracle applies
+	}
+	key := string(sc.Conns[0].Reqs[o].Args[1])
 	w.step = func(w *redisWorld) *simrtViolation {
 		for _, c := range w.env.Clients {
 			if c.Gate == nil {
-				// the first request waits for the layout change
-				c.Gate = func(c *world.Client, idx int) bool { return idx > 0 || (len(w.fired) > 0 && w.fired[0]) }
+				// that request waits for the layout change
+				c.Gate = func(c *world.Client, idx int) bool { return idx != o || (len(w.fired) > 0 && w.fired[0]) }
 			}
-			if len(w.fired) > 0 && w.fired[0] && len(c.Sent) == 0 {
+			if len(w.fired) > 0 && w.fired[0] && len(c.Sent) == o {
 				c.Kick()
 			}
 		}
@@ -336,7 +368,7 @@ func (p c07) runRefreshInFlight(t *testing.T, sc *RedisScenario, w *redisWorld) 
 		for _, x := range w.env.Clients {
 			c = x
 		}
-		if c == nil || len(c.Sent) < 2 || !c.Sent[0].Answered || !c.Sent[1].Answered {
+		if c == nil || len(c.Sent) < o+2 || !c.Sent[o].Answered || !c.Sent[o+1].Answered {
 			return nil // liveness is the common oracle's business
 		}
 		for _, sn := range c.Sent {
@@ -350,7 +382,10 @@ func (p c07) runRefreshInFlight(t *testing.T, sc *RedisScenario, w *redisWorld) 
 			if le.Accepted || len(le.Args) != 2 || !strings.EqualFold(string(le.Args[0]), "get") || string(le.Args[1]) != key {
 				continue
 			}
-			if le.Step < c.Sent[1].InvokeStep {
+			if le.Step < c.Sent[o].InvokeStep {
+				continue // the warm-up
+			}
+			if le.Step < c.Sent[o+1].InvokeStep {
 				first++
 			} else {
 				second++
